@@ -96,7 +96,16 @@ def dspacing_from_tof(
         elem_unit(tof) / sc.units.angstrom / elem_unit(Ltotal),
         copy=False,
     )
-    return 1 / as_float_type(c * Ltotal * sc.sin(two_theta / 2), tof) * tof
+    return (
+        1
+        / as_float_type(
+            c
+            * as_float_type(Ltotal, tof)
+            * sc.sin(as_float_type(two_theta, tof) / 2),
+            tof,
+        )
+        * tof
+    )
 
 
 def _energy_constant(energy_unit: sc.Unit, tof: Variable, length: Variable):
@@ -131,7 +140,7 @@ def energy_from_tof(*, tof: Variable, Ltotal: Variable) -> Variable:
         Has unit meV.
     """
     c = _energy_constant(sc.units.meV, tof, Ltotal)
-    return as_float_type(c * Ltotal**2, tof) / tof ** sc.scalar(
+    return as_float_type(c * as_float_type(Ltotal, tof) ** 2, tof) / tof ** sc.scalar(
         2, dtype=elem_dtype(tof)
     )
 
